@@ -765,7 +765,7 @@ class C12(L1Prop):
         # the real executable: the targets given by flag / environment variable are the ones the urgency is
         # computed from
         for j, (vsrc, ysrc, d, v) in enumerate([("flag:2", "default", 14, 2), ("env:3", "flag:1", 1, 3), ("both:1/9", "env:2", 2, 1), ("flag:0", "flag:0", 0, 0)][:sizes(tier, 3, 4)]):
-            ops = [f"boot listen=flag:1 dir=flag allow=none versions={vsrc} days={ysrc}", "http@0 POST av hyph=nil hyph=1 history b:1",
+            ops = [f"boot listen=flag:1 dir=flag allow=none versions={vsrc} days={ysrc} log={['debug', 'trace', 'error', 'debug'][j % 4]}", "http@0 POST av hyph=nil hyph=1 history b:1",
                    "http@0 POST av hyph=latest:1 hyph=1 history b:2", "http@0 POST as hyph=latest:1 hyph=1 snapshot b:9"]
             for i in range(5):
                 ops += ["dump 1", f"http@0 POST av hyph=latest:1 hyph=1 history b:3,{i}", "dump 1"]
@@ -1368,6 +1368,19 @@ class C11(L1Prop):
         # what GetSnapshot returns always come from the same upload
         from .props_http import interleaved_upload_cases
         out += interleaved_upload_cases("c11", rng, sizes(tier, 12, 100))
+        # a storage call fails while GetSnapshot runs: the answer may be an error, never "no snapshot" for a client
+        # whose upload was accepted; and an upload whose transaction does not commit is not what GetSnapshot
+        # returns afterwards — neither its id nor its bytes
+        for k in range(sizes(tier, 6, 30)):
+            ops = ["http POST av hyph=nil hyph=1 history b:1", "http POST av hyph=latest:1 hyph=1 history b:2",
+                   f"http POST as hyph=latest:1 hyph=1 snapshot b:9,{k}", "http GET snap - hyph=1 absent e"]
+            for idx in range(0, 4):
+                ops += [f"fault {idx}:before", "http GET snap - hyph=1 absent e"]
+            ops += ["http POST av hyph=latest:1 hyph=1 history b:3"]
+            for plan in (["3:before", "2:after", "2:before"] if k % 2 else ["2:after", "3:before"]):
+                ops += [f"fault {plan}", f"http POST as hyph=latest:1 hyph=1 snapshot b:66,{k}", "http GET snap - hyph=1 absent e"]
+            ops += [f"http POST as hyph=latest:1 hyph=1 snapshot b:10,{k}", "http GET snap - hyph=1 absent e", "reopen", "http GET snap - hyph=1 absent e"]
+            out.append(Case(f"c11-fault-{k}", ops, {"http": True, "faults": True, "only": "sqlite"}, mode="http"))
         # a snapshot stored by the pinned release, then replaced under this build
         def tail(name, c, nacc, snap, o):
             return [f"gs {c}", f"swalk {c}", f"av {c} latest:{c} b:1,1", f"as {c} latest:{c} r:7000", f"gs {c}", f"av {c} latest:{c} b:1,2",
@@ -1407,6 +1420,8 @@ class C11(L1Prop):
                     elif not h.valid() and r.status == 200:
                         fails.append(f"op {i}: an upload that was not complete / well-formed was answered 200: `{o[:90]}`")
                 if h.route == "snap":
+                    if case.meta.get("faults") and r.status >= 500:
+                        continue          # a storage call failed and the client was told so
                     got = (r.xv, r.body) if r.status == 200 else None
                     if got != cur.get(h.cid):
                         fails.append(f"op {i}: get_snapshot returned {str(got)[:80]}, the most recently accepted upload is {str(cur.get(h.cid))[:80]}")
